@@ -162,6 +162,7 @@ def run(run: common.Run):
     run_direct(run, quick)
     overview_leg(run)
     shared_profile_leg(run)
+    empty_block_leg(run)
     run.rule = ('(a) _convert_array_dtype on 63 adversarial/random float32 values x 7 dtypes x 5-7 nodata settings, every pixel vs '
                 'the model; (b) float32 fusions (data chosen to give negatives, half-integers, > 2^32, +-inf) repeated with '
                 'dtype x nodata x driver (GTiff, PNG) x lossless creation options: every output pixel and mask vs the model conversion '
@@ -273,6 +274,55 @@ def compare_file(case, m, im):
         if not exp_valid and nd not in ('null',) and xs not in ('?',) and ys != xs and not (xs == 'nan' and ys == 'nan'):
             return f'invalid pixel {k}: stored {ys}, expected the nodata value {xs}'
     return None
+
+
+def empty_block_leg(run):
+    """
+    A source whose lower two thirds are invalid, processed in several blocks - some of which hold no valid source pixel at all -
+    and written with drivers that do not pre-fill a file with the nodata value (PNG, ENVI) as well as GTiff, with non-zero nodata
+    values and with nodata=None: every invalid pixel must come out as nodata / masked, exactly as in the single-block run.
+    """
+    from homonim.errors import BlockSizeError
+    tmp = run.tmpdir()
+    u = 8
+    ref = rasters.Grid(u * 6000, u * 8000, 4 * u, 4 * u, 30, 30)
+    src = rasters.Grid(ref.x0 + 8 * u, ref.ytop - 8 * u, u, u, 96, 96)
+    rng = run.rng('empty-block')
+    s = np.array([[[rng.randint(20, 200) for _ in range(src.w)] for _ in range(src.h)]], float)
+    r = np.array([[[rng.randint(30, 150) for _ in range(ref.w)] for _ in range(ref.h)]], float)
+    sv = np.ones((src.h, src.w), bool)
+    sv[32:, :] = False
+    pair = fusion.write_pair(tmp, 'c13eb', src, ref, s, r, sv, None)
+    ph, pw = fusion.proc_window_shape(src, ref, True)
+    combos = [('GTiff', 'tif', 'int16', -9999), ('GTiff', 'tif', 'uint8', None), ('GTiff', 'tif', 'float32', -9999.0),
+              ('PNG', 'png', 'uint16', 65535), ('PNG', 'png', 'uint16', 0), ('ENVI', 'dat', 'int16', -9999), ('ENVI', 'dat', 'float32', -9999.0)]
+    for k, (drv, ext, dt, nd) in enumerate(combos):
+        case = dict(i=5_200_000 + k, op='blocks without valid source pixels', driver=drv, dtype=dt, nodata=nd)
+        outs = {}
+        try:
+            for hv in (0, 3):
+                prof = dict(driver=drv, dtype=dt, nodata=nd, creation_options={})
+                res = fusion.run_fuse(pair.src_path, pair.ref_path, tmp / f'c13eb_{k}_{hv}.{ext}', model='gain', kernel_shape=(1, 1), param=False,
+                                      threads=1, out_profile=prof, model_config=dict(upsampling='nearest'),
+                                      max_block_mem=fusion.block_mem_for(hv, ph, pw, src.px, ref.px, True) if hv else 100)
+                outs[hv] = (res.corr.copy(), res.corr_masks.copy())
+        except BlockSizeError:
+            continue
+        except Exception as ex:
+            if drv != 'GTiff':
+                run.hist[f'{drv} profile refused by GDAL: skipped'] += 1
+                continue
+            run.fail(case, f'fusion raised {type(ex).__name__}: {ex}', signature=dict(kind='raises'))
+            continue
+        run.evaluations += 2
+        run.hist[f'empty-block runs: {drv}'] += 1
+        run.nontrivial.add(('empty-block', k))
+        (a0, m0), (a1, m1) = outs[0], outs[3]
+        inv = ~np.broadcast_to(sv, m1.shape)
+        if m1[inv].any() or not np.array_equal(m0, m1) or not np.array_equal(a0[m0], a1[m1]):
+            nbad = int(m1[inv].sum())
+            run.fail(case, f'{drv} / {dt} / nodata {nd}: the multi-block output differs from the single-block output; {nbad} invalid source '
+                     f'pixels read back as valid' + (f' (value {a1[inv & m1][0]})' if nbad else ''), signature=dict(kind='empty-block', driver=drv))
 
 
 def shared_profile_leg(run):
